@@ -71,6 +71,70 @@ def pattern_match_rule(ctx):
               "loop bound is " + hdr)
 
 
+def resolve_rule(ctx):
+    """Which cgroups a pattern resolves to: the directories glob(3) returns for the absolute path (every one confirmed to be a
+    directory), mapped back to (root, rest) only below the fs root.  Shared by C16 (path algebra) and C11 (a ruleset-level pattern is
+    evaluated for every existing cgroup that matches it - exactly what resolveWildcard returns)."""
+    P, cg = ctx.prog, ctx.cg
+    # ---- (5) glob(dir_only): GLOB_ONLYDIR is only a hint - every result is confirmed to be a directory
+    gl = ctx.fn1("Oomd::Fs::glob")
+    ctx.anchor(gl, "dir_only", "ret")
+    fgl = Flow(P, gl, cg=cg, split=lambda k: k == "dir_only")
+    emits = [i for i in gl.calls("emplace_back", "push_back") if gl.text(gl.nodes[i].get("recv", -1)) == "ret"]
+    ctx.counters["glob_emit_sites"] = len(emits)
+    ctx.floor("glob_emit_sites", 1, "result emission in Fs::glob")
+    for i in emits:
+        arg = gl.text(gl.strip(gl.nodes[i]["args"][0])) if gl.nodes[i].get("args") else "?"
+        arg = re.sub(r"^std::move\((.*)\)$", r"\1", arg)
+        bad = []
+        for key, st_ in (fgl.at(i) or {}).items():
+            conds = set(st_.conds)
+            if ("dir_only", False) in conds:
+                continue
+            if not any(p is True and re.match(r"^(Oomd::Fs::)?isDir\(%s\)$" % re.escape(arg), k) for k, p in conds):
+                bad.append(sorted(conds, key=str))
+        ctx.check(not bad and fgl.at(i), "glob:dir-only-results-are-directories", "guarded_by (split on dir_only)", gl.loc(i),
+                  "with dir_only every emitted path passed isDir()", "with dir_only a path can be emitted without the isDir() confirmation (GLOB_ONLYDIR is only a hint: "
+                  "a literal last component naming a regular file is returned by glob(3)): facts %s" % (bad[0] if bad else "none"))
+    # ---- (3) resolveWildcard prefix filter
+    rw = ctx.fn1("Oomd::CgroupPath::resolveWildcard")
+    ctx.anchor(rw, "path", "ret")
+    fl = Flow(P, rw, cg=cg)
+    em = [i for i in rw.calls("emplace_back", "push_back") if rw.text(rw.nodes[i].get("recv", -1)) == "ret"]
+    ctx.counters["resolve_emit_sites"] = len(em)
+    ctx.floor("resolve_emit_sites", 2, "result emission sites in resolveWildcard")
+    # every result is made from a path glob(3) returned: emissions sit inside the walk over the glob results and carry (root, rest of that path)
+    glp = [l for l in loops(rw) if l["stmt"] is not None and rw.nodes[l["stmt"]]["k"] in ("rangefor", "for") and "glob" in Expander(P, rw)(rw.nodes[l["stmt"]].get("range", rw.nodes[l["stmt"]].get("init", -1)))]
+    stray = [i for i in em if not any(l["stmt"] in list(rw.ancestors(i)) for l in glp) or len(rw.nodes[i].get("args", [])) != 2]
+    for i in stray:
+        ctx.violation("resolve:results-come-from-glob@%d" % rw.nodes[i].get("line", 0), "provenance", rw.loc(i),
+                      "resolveWildcard emits %s outside the walk over the glob(3) results: the pattern is not expanded by glob for that path, so "
+                      "metacharacters glob understands ('?', '[...]', '{a,b}', '*') are taken literally or a non-directory is accepted" % rw.text(i)[:80])
+    em = [i for i in em if i not in stray]
+    if not stray:
+        ctx.ok("resolve:results-come-from-glob", "provenance", rw.loc(), "every result is emitted inside the walk over the glob results")
+    for i in em:
+        g = fl.guards(i)
+        pref = any(k in ("(0 == path.find(this->cgroup_fs_, 0))", "(path.find(this->cgroup_fs_, 0) == 0)") and p is True for k, p in g)
+        same = any(k in ("(path.size() == this->cgroup_fs_.size())", "(this->cgroup_fs_.size() == path.size())") and p is True for k, p in g)
+        slash = any(re.match(r"^\((47 == path\[this->cgroup_fs_\.size\(\)\]|path\[this->cgroup_fs_\.size\(\)\] == 47)\)$", k) and p is True for k, p in g)
+        a = [hoist_text(rw, x).replace("std::basic_string<char>::npos", "std::string::npos") for x in rw.nodes[i]["args"]]
+        ctx.check(pref and (same or slash), "resolve:only-under-the-fs-root", "guarded_by", rw.loc(i),
+                  "a result is emitted only for paths that start with the fs root and equal it or continue with '/'",
+                  "a glob result is accepted without the root-prefix / component-boundary test (names sharing a prefix with the root would match)", witness_path(rw, fl, i))
+        if same:
+            ctx.check(a[1] in ('""', "std::string(\"\")") or a[1].endswith('("")') or '""' in a[1], "resolve:root-maps-to-empty", "value-shape", rw.loc(i), "the root itself resolves to the empty relative path", "root emitted as " + a[1])
+        else:
+            ctx.check(a[1].replace(", 18446744073709551615", "") in ("path.substr((this->cgroup_fs_.size() + 1))", "path.substr((this->cgroup_fs_.size() + 1), std::string::npos)") or
+                      re.match(r"^path\.substr\(\(this->cgroup_fs_\.size\(\) \+ 1\)", a[1]) is not None, "resolve:strip-root-and-slash", "value-shape", rw.loc(i),
+                      "the relative part is what follows root + '/'", "relative part is " + a[1])
+        ctx.check(a[0] == "this->cgroup_fs_", "resolve:same-fs-root", "value-shape", rw.loc(i), "results keep this path's fs root", "result root is " + a[0])
+    X = Expander(P, rw)
+    lp = [l for l in loops(rw) if l["stmt"] is not None and rw.nodes[l["stmt"]]["k"] == "rangefor"]
+    ctx.check(len(lp) == 1 and X(rw.nodes[lp[0]["stmt"]]["range"]).startswith("*Oomd::Fs::glob(this->absolutePath(), true)"), "resolve:glob-of-absolute-path-dirs-only", "provenance", rw.loc(),
+              "candidates are glob(absolutePath(), dir_only=true)", "candidates are " + (X(rw.nodes[lp[0]["stmt"]]["range"]) if lp else "?"))
+
+
 def run(ctx):
     P, cg = ctx.prog, ctx.cg
     # precondition: plain getters
@@ -174,6 +238,32 @@ def run(ctx):
     reads = {n.get("qname") for n in rcf.nodes if n["k"] == "member"}
     ctx.check(bool(wa) and bool(wr) and set(FIELDS) <= reads, "recompute-rebuilds-both-caches", "field-write", rcf.loc(), "recomputeReadCache rebuilds both caches from the components and the root",
               "recomputeReadCache does not rebuild both caches from cgroup_path_ and cgroup_fs_")
+    # absolute path = root + "/" + relative (just the root when the relative path is empty): the pieces appended to absolute_cache_
+    APP = ("operator+=", "append", "push_back")
+    app = [(i, rcf.text(rcf.nodes[i]["args"][0])) for i in range(len(rcf.nodes)) if rcf.nodes[i]["k"] == "call" and rcf.pos_of(i) is not None and
+           (rcf.nodes[i].get("cname") in APP or rcf.nodes[i].get("op") == "+=") and rcf.nodes[i].get("args") and rcf.text(rcf.nodes[i].get("recv", -1)) == "this->absolute_cache_"]
+    root_a = [i for i, t in app if t == "this->cgroup_fs_"]
+    sep_a = [i for i, t in app if t in ("47", '"/"')]
+    rel_a = [i for i, t in app if t == "this->relative_cache_"]
+    other = [t for i, t in app if i not in root_a + sep_a + rel_a]
+    frc = Flow(P, rcf, events={**{i: [("set", "root")] for i in root_a}, **{i: [("set", "sep")] for i in sep_a}}, cg=cg)
+    NONEMPTY = lambda k, p: (k in ("this->relative_cache_.size()",) and p is True) or (k == "this->relative_cache_.empty()" and p is False)
+    ok_abs = len(root_a) == 1 and len(sep_a) == 1 and len(rel_a) == 1 and not other
+    why = "appends: " + str([t for _, t in app])
+    if ok_abs:
+        gs = [(k, p) for k, p in frc.guards(sep_a[0]) if not is_loop_control_fact(k)]
+        gr = [(k, p) for k, p in frc.guards(rel_a[0]) if not is_loop_control_fact(k)]
+        # the separator depends on nothing but 'the relative path is not empty'; the relative path always follows root and separator
+        if not all(NONEMPTY(k, p) for k, p in gs):
+            ok_abs, why = False, "the '/' between root and relative path is appended only under %s" % sorted((k, p) for k, p in gs if not NONEMPTY(k, p))
+        elif not (frc.must(rel_a[0], "root") and frc.must(rel_a[0], "sep")):
+            ok_abs, why = False, "the relative path can be appended without the root or the '/' before it"
+        elif not frc.must(sep_a[0], "root") or frc.guards(root_a[0]) and [1 for k, p in frc.guards(root_a[0]) if not is_loop_control_fact(k)]:
+            ok_abs, why = False, "the root is not appended unconditionally before the '/'"
+    ctx.check(ok_abs, "absolute-is-root-slash-relative", "value-shape + must_precede", rcf.loc(sep_a[0]) if sep_a else rcf.loc(),
+              "absolute path = root, then '/' + relative path exactly when the relative path is non-empty",
+              "recomputeReadCache does not build root + '/' + relative: %s (resolveWildcard maps glob results back by the character after the root, "
+              "and equality / hashing go through this text)" % why)
     pattern_match_rule(ctx)
     # ---- (6) canonical components: every component ever stored comes out of Util::split(text, '/') (never empty, never containing '/')
     n_cw = 0
@@ -215,50 +305,4 @@ def run(ctx):
             okp = False
     ctx.check(okp, "getParent-drops-exactly-one-component", "per-path exactly-once", gp.loc(), "getParent removes exactly the last component on every returning path",
               "getParent does not remove exactly one component")
-    # ---- (5) glob(dir_only): GLOB_ONLYDIR is only a hint - every result is confirmed to be a directory
-    gl = ctx.fn1("Oomd::Fs::glob")
-    ctx.anchor(gl, "dir_only", "ret")
-    fgl = Flow(P, gl, cg=cg, split=lambda k: k == "dir_only")
-    emits = [i for i in gl.calls("emplace_back", "push_back") if gl.text(gl.nodes[i].get("recv", -1)) == "ret"]
-    ctx.counters["glob_emit_sites"] = len(emits)
-    ctx.floor("glob_emit_sites", 1, "result emission in Fs::glob")
-    for i in emits:
-        arg = gl.text(gl.strip(gl.nodes[i]["args"][0])) if gl.nodes[i].get("args") else "?"
-        arg = re.sub(r"^std::move\((.*)\)$", r"\1", arg)
-        bad = []
-        for key, st_ in (fgl.at(i) or {}).items():
-            conds = set(st_.conds)
-            if ("dir_only", False) in conds:
-                continue
-            if not any(p is True and re.match(r"^(Oomd::Fs::)?isDir\(%s\)$" % re.escape(arg), k) for k, p in conds):
-                bad.append(sorted(conds, key=str))
-        ctx.check(not bad and fgl.at(i), "glob:dir-only-results-are-directories", "guarded_by (split on dir_only)", gl.loc(i),
-                  "with dir_only every emitted path passed isDir()", "with dir_only a path can be emitted without the isDir() confirmation (GLOB_ONLYDIR is only a hint: "
-                  "a literal last component naming a regular file is returned by glob(3)): facts %s" % (bad[0] if bad else "none"))
-    # ---- (3) resolveWildcard prefix filter
-    rw = ctx.fn1("Oomd::CgroupPath::resolveWildcard")
-    ctx.anchor(rw, "path", "ret")
-    fl = Flow(P, rw, cg=cg)
-    em = [i for i in rw.calls("emplace_back", "push_back") if rw.text(rw.nodes[i].get("recv", -1)) == "ret"]
-    ctx.counters["resolve_emit_sites"] = len(em)
-    ctx.floor("resolve_emit_sites", 2, "result emission sites in resolveWildcard")
-    for i in em:
-        g = fl.guards(i)
-        pref = any(k in ("(0 == path.find(this->cgroup_fs_, 0))", "(path.find(this->cgroup_fs_, 0) == 0)") and p is True for k, p in g)
-        same = any(k in ("(path.size() == this->cgroup_fs_.size())", "(this->cgroup_fs_.size() == path.size())") and p is True for k, p in g)
-        slash = any(re.match(r"^\((47 == path\[this->cgroup_fs_\.size\(\)\]|path\[this->cgroup_fs_\.size\(\)\] == 47)\)$", k) and p is True for k, p in g)
-        a = [hoist_text(rw, x).replace("std::basic_string<char>::npos", "std::string::npos") for x in rw.nodes[i]["args"]]
-        ctx.check(pref and (same or slash), "resolve:only-under-the-fs-root", "guarded_by", rw.loc(i),
-                  "a result is emitted only for paths that start with the fs root and equal it or continue with '/'",
-                  "a glob result is accepted without the root-prefix / component-boundary test (names sharing a prefix with the root would match)", witness_path(rw, fl, i))
-        if same:
-            ctx.check(a[1] in ('""', "std::string(\"\")") or a[1].endswith('("")') or '""' in a[1], "resolve:root-maps-to-empty", "value-shape", rw.loc(i), "the root itself resolves to the empty relative path", "root emitted as " + a[1])
-        else:
-            ctx.check(a[1].replace(", 18446744073709551615", "") in ("path.substr((this->cgroup_fs_.size() + 1))", "path.substr((this->cgroup_fs_.size() + 1), std::string::npos)") or
-                      re.match(r"^path\.substr\(\(this->cgroup_fs_\.size\(\) \+ 1\)", a[1]) is not None, "resolve:strip-root-and-slash", "value-shape", rw.loc(i),
-                      "the relative part is what follows root + '/'", "relative part is " + a[1])
-        ctx.check(a[0] == "this->cgroup_fs_", "resolve:same-fs-root", "value-shape", rw.loc(i), "results keep this path's fs root", "result root is " + a[0])
-    X = Expander(P, rw)
-    lp = [l for l in loops(rw) if l["stmt"] is not None and rw.nodes[l["stmt"]]["k"] == "rangefor"]
-    ctx.check(len(lp) == 1 and X(rw.nodes[lp[0]["stmt"]]["range"]).startswith("*Oomd::Fs::glob(this->absolutePath(), true)"), "resolve:glob-of-absolute-path-dirs-only", "provenance", rw.loc(),
-              "candidates are glob(absolutePath(), dir_only=true)", "candidates are " + (X(rw.nodes[lp[0]["stmt"]]["range"]) if lp else "?"))
+    resolve_rule(ctx)
